@@ -155,6 +155,8 @@ class AsyncClient(base_client.BaseClient):
                     'connect_error', n,
                     exc.args[1] if len(exc.args) > 1 else exc.args[0])
             if retry:  # pragma: no cover
+                if self._reconnect_abort is not None:
+                    self._reconnect_abort.clear()
                 await self._handle_reconnect()
                 if self.eio.state == 'connected':
                     return
@@ -511,7 +513,6 @@ class AsyncClient(base_client.BaseClient):
     async def _handle_reconnect(self):
         if self._reconnect_abort is None:  # pragma: no cover
             self._reconnect_abort = self.eio.create_event()
-        self._reconnect_abort.clear()
         base_client.reconnecting_clients.append(self)
         attempt_count = 0
         current_delay = self.reconnection_delay
@@ -674,6 +675,11 @@ class AsyncClient(base_client.BaseClient):
         self._binary_packet = None
         self.sid = None
         if will_reconnect and not self._reconnect_task:
+            # (the effort can be aborted from now on, also before its task
+            # has executed its first statement)
+            if self._reconnect_abort is None:
+                self._reconnect_abort = self.eio.create_event()
+            self._reconnect_abort.clear()
             self._reconnect_task = self.start_background_task(
                 self._handle_reconnect)
         if error is not None:
